@@ -40,7 +40,7 @@ NumeralValue(P) ==
         e0 == IF P.ex = <<>> \/ Len(StripLeadingZeros(P.ex)) > 3 THEN 0 ELSE DigitsVal(P.ex, 0)
         e  == (IF P.eneg THEN 0 - e0 ELSE e0) - Len(P.fp)
         allZero == \A i \in 1..Len(ds) : ds[i] = 48
-    IN  IF allZero THEN IntV(0)
+    IN  IF allZero THEN (IF P.neg THEN ZeroU ELSE IntV(0))
         ELSE IF Len(StripLeadingZeros(P.ex)) > 3 \/ Len(ds) > 9 THEN NumX
         ELSE LET m == DigitsVal(ds, 0) IN
              IF e >= 0 THEN (IF e <= 9 /\ MulFits(m, PowI(10, e)) THEN IntV((IF P.neg THEN 0 - 1 ELSE 1) * m * PowI(10, e)) ELSE NumX)
@@ -89,7 +89,7 @@ NumCall(nm, a, md) ==
            ELSE LArgType(1)
       [] nm = "abs"   -> IF n # 1 THEN LArgCount ELSE IF ~N(1) THEN LArgType(1) ELSE LVal([a[1] EXCEPT !.n = AbsI(@)])
       [] nm = "floor" -> IF n # 1 THEN LArgCount ELSE IF ~N(1) THEN LArgType(1) ELSE LVal(IntV(NumFloor(a[1])))
-      [] nm = "ceil"  -> IF n # 1 THEN LArgCount ELSE IF ~N(1) THEN LArgType(1) ELSE LVal(IntV(0 - NumFloor(NumNeg(a[1]))))
+      [] nm = "ceil"  -> IF n # 1 THEN LArgCount ELSE IF ~N(1) THEN LArgType(1) ELSE LVal(IF a[1].n < 0 /\ NumFloor(NumNeg(a[1])) = 0 THEN ZeroU ELSE IntV(0 - NumFloor(NumNeg(a[1]))))
       [] nm = "round" -> IF n < 1 \/ n > 2 THEN LArgCount ELSE IF ~N(1) THEN LArgType(1)
                          ELSE IF opt(2) /\ ~N(2) THEN LArgType(2)
                          ELSE IF opt(2) /\ ~IsInteger(a[2]) THEN LTop("fractional precision")
